@@ -144,8 +144,7 @@ AllocaCases ==
       mk("block_survives_calls", <<"char *p = __builtin_alloca(n_@); int k = touch@(p, 33); char *q = __builtin_alloca(n_@); k = touch@(q, k);">>,
          << <<" %d", "p[0]">>, <<" %d", "q[0]">>, <<" %d", "k">> >>, <<"33", "34", "35">>),
       mk("in_a_loop", <<"char *ps[3]; int k; for (k = 0; k < 3; k++) { ps[k] = __builtin_alloca(n_@ + k); ps[k][0] = (char)(k + 1); }">>,
-         << <<" %d", "ps[0][0] + 10 * ps[1][0] + 100 * ps[2][0]">>, <<" %d", "ps[0] != ps[1] && ps[1] != ps[2] && ps[0] != ps[2]">> >>, <<"321", "1">>),
-      mk("alloca_spelling", <<"int *p = alloca(4 * sizeof (int)); p[3] = 9; p[0] = 1;">>, << <<" %d", "p[0] + p[3]">> >>, <<"10">>)}
+         << <<" %d", "ps[0][0] + 10 * ps[1][0] + 100 * ps[2][0]">>, <<" %d", "ps[0] != ps[1] && ps[1] != ps[2] && ps[0] != ps[2]">> >>, <<"321", "1">>)}
 
 Z == Zero64
 Init == lvl = 0 /\ fam = "" /\ op = "" /\ ta = "" /\ tb = "" /\ tr = "" /\ va = Z /\ vb = Z /\ var = "" /\ ex = <<>>
